@@ -17,6 +17,8 @@ for log in sys.argv[1:]:
         prop, var = m.group(1), m.group(2)
         if 'seedout2' in d:
             var = {'a': 'c', 'b': 'd'}.get(var, var)          # second wave: <prop>_c, <prop>_d
+        if 'seedout4' in d:
+            var = {'a': 'g', 'b': 'h'}.get(var, var)          # fourth wave: <prop>_g
         if 'seedout3' in d:
             var = {'a': 'e', 'b': 'f'}.get(var, var)          # third wave: <prop>_e, <prop>_f
         name = f'{prop}_{var}'
